@@ -522,7 +522,9 @@ class ZorgFileCompiler(ZorgFileListener):
                 if not words:
                     continue
                 first_word = words.pop(0)
-                if first_word.endswith("::"):
+                # An inline property (e.g. '[key:: some value]') is handled by
+                # enterInline_prop() and is NOT a bullet property.
+                if first_word.endswith("::") and "[" not in first_word:
                     key = first_word[:-2]
                     value = re.sub(r"\s+", " ", " ".join(words).strip())
                     self._add_prop(key, value)
